@@ -1,0 +1,59 @@
+//go:build verif
+
+package ast
+
+import (
+	"iter"
+
+	"github.com/hyperjumptech/grule-rule-engine/pkg/simhook"
+)
+
+// kbView is a KnowledgeBase whose RuleEntries are ranged in simulator-chosen order.
+type kbView struct {
+	*KnowledgeBase
+	RuleEntries iter.Seq2[string, *RuleEntry]
+}
+
+func simKBView(site string, e *KnowledgeBase) kbView {
+	return kbView{KnowledgeBase: e, RuleEntries: simhook.Seq(site, e.RuleEntries)}
+}
+
+// catView is a Catalog whose maps are ranged in simulator-chosen order.
+type catView struct {
+	*Catalog
+	Data                            iter.Seq2[string, Meta]
+	MemoryVariableSnapshotMap       iter.Seq2[string, string]
+	MemoryExpressionSnapshotMap     iter.Seq2[string, string]
+	MemoryExpressionAtomSnapshotMap iter.Seq2[string, string]
+	MemoryExpressionVariableMap     iter.Seq2[string, []string]
+	MemoryExpressionAtomVariableMap iter.Seq2[string, []string]
+}
+
+func simCatView(cat *Catalog) catView {
+	return catView{
+		Catalog:                         cat,
+		Data:                            simhook.Seq("cat.write.data", cat.Data),
+		MemoryVariableSnapshotMap:       simhook.Seq("cat.write.varsnap", cat.MemoryVariableSnapshotMap),
+		MemoryExpressionSnapshotMap:     simhook.Seq("cat.write.exprsnap", cat.MemoryExpressionSnapshotMap),
+		MemoryExpressionAtomSnapshotMap: simhook.Seq("cat.write.atomsnap", cat.MemoryExpressionAtomSnapshotMap),
+		MemoryExpressionVariableMap:     simhook.Seq("cat.write.exprvar", cat.MemoryExpressionVariableMap),
+		MemoryExpressionAtomVariableMap: simhook.Seq("cat.write.atomvar", cat.MemoryExpressionAtomVariableMap),
+	}
+}
+
+// wmView is a WorkingMemory whose snapshot maps are ranged in simulator-chosen order.
+type wmView struct {
+	*WorkingMemory
+	variableSnapshotMap       iter.Seq2[string, *Variable]
+	expressionSnapshotMap     iter.Seq2[string, *Expression]
+	expressionAtomSnapshotMap iter.Seq2[string, *ExpressionAtom]
+}
+
+func simWMView(workingMem *WorkingMemory) wmView {
+	return wmView{
+		WorkingMemory:             workingMem,
+		variableSnapshotMap:       simhook.Seq("wm.index.var", workingMem.variableSnapshotMap),
+		expressionSnapshotMap:     simhook.Seq("wm.index.expr", workingMem.expressionSnapshotMap),
+		expressionAtomSnapshotMap: simhook.Seq("wm.index.atom", workingMem.expressionAtomSnapshotMap),
+	}
+}
